@@ -131,12 +131,12 @@ extern "C" void h_c05_plume_uniform_T(void)
 }
 // gaussian plume: T = Tc(depth) * exp(-rel / (2 sigma(depth)^2)), Tc and sigma linearly interpolated between the listed depths
 // (first/last entry outside them), negative Tc => adiabat at that depth
-extern "C" void h_c05_plume_gaussian_T(unsigned long n)
+extern "C" void h_c05_plume_gaussian_T(unsigned long n, unsigned long any_sigma)
 {
   prm.set_len("depths", unsigned(n)); prm.set_len("centerline temperatures", unsigned(n)); prm.set_len("gaussian sigmas", unsigned(n));
   Q q = query(); auto *m = build<PM::Temperature::Gaussian>(q.w); const Objects::NaturalCoordinate nc(q.pos, *q.w->parameters.coordinate_system);
   for (unsigned i = 1; i < n; ++i) sym_assume(m->depths[i] > m->depths[i-1]);
-  for (unsigned i = 0; i < n; ++i) sym_assume(m->gaussian_sigmas[i] > 0);
+  if (!any_sigma) for (unsigned i = 0; i < n; ++i) sym_assume(m->gaussian_sigmas[i] > 0);      // any_sigma: C13's domain-safety run over the whole schema domain
   const double rel = sym_f64("relative");
   const double T = m->PM::Temperature::Gaussian::get_temperature(q.pos, nc, q.depth, q.g, q.old, q.fmin, q.fmax, rel);
   sym_assert(sym_writes() == 0, "the model query stores only to fresh memory");
@@ -151,6 +151,7 @@ extern "C" void h_c05_plume_gaussian_T(unsigned long n)
       Tc = m->center_temperatures[i-1] + t * (m->center_temperatures[i] - m->center_temperatures[i-1]); sigma = m->gaussian_sigmas[i-1] + t * (m->gaussian_sigmas[i] - m->gaussian_sigmas[i-1]);
     }
   if (Tc < 0) Tc = adiabat(q.w, q.g, q.depth);
+  if (any_sigma) { sym_reach("end"); return; }
   sym_assert(sym_eq(T, combine(m->operation, q.old, Tc * std::exp(-rel / (2. * sigma * sigma)))), "gaussian plume temperature: Tc * exp(-r/(2 sigma^2)) with Tc and sigma interpolated in depth (negative Tc => adiabat)");
   sym_reach("end");
 }
